@@ -194,11 +194,14 @@ def ff_type_ids(eng, res, rule="R-FF-TYPE-ID"):
     e, nd = locate(f, ["self._type_dict[$T] = $ID", "self._type_dict_rev[$ID] = $T", "self._rule_dict[$R] = $T"])
     if e is None:
         # setdefault spelling: injective iff the default is the size of the very table being keyed
-        e_sd, nd_sd = locate(f, ["$ID = self._type_dict.setdefault($T, $FRESH)", "self._type_dict_rev[$ID] = $T", "self._rule_dict[$R] = $T"])
-        if e_sd is not None:
-            sdn = nd_sd["$ID = self._type_dict.setdefault($T, $FRESH)"]
+        sds = [n for n in own_nodes(f.node) if isinstance(n, ast.Assign) and isinstance(n.targets[0], ast.Name) and isinstance(n.value, ast.Call)
+               and callee_name(n.value) == "setdefault" and src(n.value.func.value) == "self._type_dict" and len(n.value.args) == 2]
+        if len(sds) == 1:
+            sdn = sds[0]
+            idn, tn = sdn.targets[0].id, src(sdn.value.args[0])
+            e_sd, _ = locate(f, [f"self._type_dict_rev[{idn}] = {tn}", f"self._rule_dict[$R] = {tn}"])
             fresh = src(sdn.value.args[1])
-            res.ob(rule, f, "tables", "every rule line records type -> id, id -> type (inverse) and rule -> type for the same type", f.node, True)
+            res.ob(rule, f, "tables", "every rule line records type -> id, id -> type (inverse) and rule -> type for the same type", f.node, e_sd is not None)
             res.ob(rule, f, "ids-injective", "a new type gets a fresh id: the size of the very table being keyed (two types never share an id)", sdn, fresh == "len(self._type_dict)",
                    f"fresh ids come from {fresh}, which does not grow with every new type: two types can share an id and the id -> type table is overwritten")
             return
